@@ -1196,3 +1196,12 @@ Proof.
   unfold child, target. unfold ctor_call in H1. cbn [snd].
   destruct (a_ty at_); inversion H1; subst; reflexivity.
 Qed.
+
+Lemma client_resp_with_body e t fixed hdr m x :
+  bodyless e t m = false -> client_decode_resp e t fixed hdr m x = client_decode e t fixed hdr x.
+Proof. intros H. unfold client_decode_resp. now rewrite H. Qed.
+
+Lemma client_resp_defined e t fixed hdr m x :
+  has_view e t (norm (match fixed with Some f => f | None => match hdr with Some h => h | None => "" end end)) = true ->
+  client_decode_resp e t fixed hdr m x = client_decode e t fixed hdr x.
+Proof. intros H. unfold client_decode_resp. cbv zeta. rewrite H. now rewrite andb_false_r. Qed.
